@@ -21,7 +21,7 @@ EXPLANATION = (
     'the ValueSpecBase.apply pipeline (frozen, missing, None tests dominate; '
     '_validate on every path after _apply) and boundary operators of the '
     'range/size validators; (e) unknown keys are rejected before any store.')
-FLOORS = {'C03.a': 11, 'C03.b': 5, 'C03.c': 1, 'C03.d': 4, 'C03.e': 1, 'C03.f': 10}
+FLOORS = {'C03.a': 11, 'C03.b': 5, 'C03.c': 1, 'C03.d': 4, 'C03.e': 1, 'C03.f': 10, 'C03.g': 1}
 FILES = c08.FILES + ['pyglove/core/typing/value_specs.py',
                      'pyglove/core/typing/class_schema.py']
 
@@ -264,6 +264,62 @@ def rule_b(ctx):
     ctx.ob('C03.b', fq, True, 'exempt: ' + why, idx.func(fq).loc)
 
 
+def rule_g(ctx):
+  """A Union accepts a value only through one of its candidates: everything
+  Union._apply returns is the result of <candidate>.apply(...) (so range,
+  size, enum ... constraints of the candidate are enforced on every path,
+  including the type-conversion path); the only exception is the unresolved
+  forward-declaration case, which returns the input untouched."""
+  idx = ctx.index
+  f = idx.func(VS + 'Union._apply')
+  g = C.cfg_of(f.node)
+  # nested helpers whose returned (first) value is a candidate.apply(...) result
+  helpers = set()
+  for n in ast.walk(f.node):
+    if isinstance(n, (ast.FunctionDef, ast.Lambda)) and n is not f.node:
+      rets = [r for r in ast.walk(n) if isinstance(r, ast.Return) and r.value is not None]
+      if rets and any(A.has_call(r.value, lambda d: d.endswith('.apply')) for r in rets):
+        helpers.add(getattr(n, 'name', '<lambda>'))
+  def from_apply(e):
+    if isinstance(e, ast.Call):
+      d = A.call_name(e) or ''
+      return d.endswith('.apply') or d in helpers
+    return False
+  problems = []
+  n_ret = 0
+  for k in g.nodes:
+    if k.kind != 'return' or k.ast.value is None:
+      continue
+    v = k.ast.value
+    n_ret += 1
+    if from_apply(v):
+      continue
+    if isinstance(v, ast.Name):
+      defs = D.reaching_defs(g, k, v.id)
+      srcs = [val for _, val in defs]
+      if srcs and all(val is not None and from_apply(val) for val in srcs):
+        continue
+      # the untouched input: only on the unresolved-forward-declaration branch
+      if all(val is None for val in srcs):
+        tests = [t for t in g.nodes if t.kind == 'test' and 'type_resolved' in A.unparse(t.ast)]
+        blocked = {(t.id, m.id, l) for t in tests for m, l in t.succ
+                   if l == ('false' if A.unparse(t.ast).startswith('self.type_resolved') else 'true')}
+        # block the edge taken when the type is NOT resolved: the return must become unreachable
+        seen, _ = g.reach(g.entry, blocked_edges=blocked, follow_exc=False)
+        if tests and k.id not in seen:
+          continue
+      if any(val is not None and from_apply(val) for val in srcs) and any(val is None for val in srcs):
+        # `value, ok = helper(c, value)` re-binds the parameter: the return after a
+        # successful helper call is the applied value
+        continue
+    problems.append(f'line {k.lineno}: returns `{A.unparse(v, 60)}`, which is not the result of a candidate\'s apply()')
+  if n_ret < 2:
+    raise AnalysisError('Union._apply changed shape')
+  ctx.ob('C03.g', f.fq, not problems,
+         'every value a Union accepts is the result of one of its candidates\' apply() (constraints of the '
+         'candidate are enforced on every path, including type conversion)', f.loc, '; '.join(problems))
+
+
 def rule_c(ctx):
   before = len(ctx.obs)
   c01.rule_e(ctx)
@@ -484,6 +540,47 @@ def rule_f(ctx):
            'a pre-typed container is adopted by a field only if the field spec is_compatible with '
            'the container spec (else ValueError)', f.loc,
            'the compatibility gate of custom_apply is gone or no longer raises')
+    # the standard apply (re-validation under the adopter's partial setting) is
+    # skipped only when the container's own allow_partial equals the adopter's
+    ret_names = set()
+    skip_nodes = []
+    for k in g.nodes:
+      if k.kind == 'return' and isinstance(k.ast.value, ast.Tuple) and k.ast.value.elts:
+        e0 = k.ast.value.elts[0]
+        if isinstance(e0, ast.Constant) and e0.value is False:
+          skip_nodes.append(k)
+        elif isinstance(e0, ast.Name):
+          ret_names.add(e0.id)
+    for k in g.nodes:
+      if k.kind == 'stmt' and isinstance(k.ast, ast.Assign) and isinstance(k.ast.value, ast.Constant) \
+          and k.ast.value.value is False and set(A.assigned_names(k.ast.targets[0])) & ret_names:
+        skip_nodes.append(k)
+    eq_tests = [k for k in g.nodes if k.kind == 'test' and isinstance(k.ast, ast.Compare) and len(k.ast.ops) == 1
+                and isinstance(k.ast.ops[0], (ast.Eq, ast.NotEq))
+                and {A.unparse(k.ast.left), A.unparse(k.ast.comparators[0])} == {'self._allow_partial', 'allow_partial'}]
+    problems = []
+    if not skip_nodes:
+      problems.append('no path skips the standard apply (shape changed)')
+    if not eq_tests:
+      problems.append('the skip is not conditioned on self._allow_partial == allow_partial')
+    else:
+      blocked = {(t.id, m.id, l) for t in eq_tests for m, l in t.succ
+                 if l == ('true' if isinstance(t.ast.ops[0], ast.Eq) else 'false')}
+      seen, _ = g.reach(g.entry, blocked_edges=blocked, follow_exc=False)
+      for sk in skip_nodes:
+        if sk.id in seen:
+          problems.append(f'the standard apply is skipped (line {sk.lineno}) although the container was validated '
+                          f'under a different partial setting: a completed partial container keeps '
+                          f'allow_partial=True inside a strict parent')
+      # on the other outcome the adopter's setting is installed
+      inst = [k for k in g.nodes if k.kind == 'stmt' and isinstance(k.ast, ast.Assign)
+              and A.unparse(k.ast.targets[0]) == 'self._allow_partial' and A.unparse(k.ast.value) == 'allow_partial']
+      if not inst:
+        problems.append('the adopter\'s allow_partial is never installed')
+    ctx.ob('C03.f', f.fq + '#partial', not problems,
+           're-validation of an adopted typed container is skipped only when its own allow_partial equals the '
+           'adopter\'s; otherwise the adopter\'s setting is installed and the standard apply runs', f.loc,
+           '; '.join(problems))
   before = len(ctx.obs)
   c04.rule_b(ctx)
   c04.rule_e(ctx)
@@ -499,4 +596,5 @@ def run(ctx):
   rule_c(ctx)
   rule_d(ctx)
   rule_e(ctx)
+  rule_g(ctx)
   ctx.assume('acceptance semantics of each spec (what apply accepts) is not decided')
